@@ -685,8 +685,8 @@ package xpath
 //@   ensures[visits-every-node@C01,C12] result != nil && !(old(first) && pos(node) == old(pos(node))) ==> predv(ref(d), pos(node)) && forall(q, Pos, kind(q) != 2 && PRE0 < pre(q) && pre(q) < pre(pos(node)) ==> !predv(ref(d), q))
 //@   ensures[self-first@C01] result != nil && old(first) && pos(node) == old(pos(node)) ==> d.Self && predv(ref(d), pos(node))
 //@   ensures[visited-all@C01,C12] result == nil ==> forall(q, Pos, kind(q) != 2 && PRE0 < pre(q) && pre(q) < END0 ==> !predv(ref(d), q))
-//@   loop 0 invariant[visited@C01,C12] forall(q, Pos, kind(q) != 2 && PRE0 < pre(q) && pre(q) <= pre(pos(node)) ==> !predv(ref(d), q)) && pre(pos(node)) < END0 && (d.level == 0 ==> pos(node) == ancn(pos(node), d.level))
-//@   loop 1 invariant[next-is-plus-one@C01,C12] forall(q, Pos, kind(q) != 2 && PRE0 < pre(q) && pre(q) < pre(pos(node)) + size(pos(node)) ==> !predv(ref(d), q)) && pre(pos(node)) + size(pos(node)) <= END0 && (d.level == 0 ==> pre(pos(node)) + size(pos(node)) == END0)
+//@   loop 0 invariant[visited@C01,C12] forall(q, Pos, kind(q) != 2 && PRE0 < pre(q) && pre(q) <= pre(pos(node)) ==> !predv(ref(d), q))
+//@   loop 1 invariant[next-is-plus-one@C01,C12] forall(q, Pos, kind(q) != 2 && PRE0 < pre(q) && pre(q) < pre(pos(node)) + size(pos(node)) ==> !predv(ref(d), q)) && (d.level == 0 ==> pre(pos(node)) + size(pos(node)) == END0)
 //@ func (*followingQuery).Select$1
 //@   props C15 C01 C12
 //@   theory nav for C01 C12
